@@ -199,7 +199,7 @@ func (securityAssociation *SecurityAssociation) Unmarshal(b []byte) error {
 				}
 				transform.AttributePresent = true
 				transform.AttributeFormat = ((transformData[8] & 0x80) >> 7)
-				transform.AttributeType = binary.BigEndian.Uint16(transformData[8:10]) & 0x7f
+				transform.AttributeType = binary.BigEndian.Uint16(transformData[8:10]) & 0x7fff
 
 				if transform.AttributeFormat == 0 {
 					attributeLength := binary.BigEndian.Uint16(transformData[10:12])
